@@ -100,9 +100,11 @@ Proof.
   destruct (negb (r_post_ok r)); [reflexivity|].
   destruct (Nat.ltb 0 (h_direct_queries h)).
   - destruct (l_objs ld); reflexivity.
-  - destruct (Nat.ltb 0 (h_adds h)); [|reflexivity].
-    destruct (Nat.eqb (List.length (r_new r)) (h_adds h) && Nat.eqb (h_owner_assignments h) (h_adds h)); [|reflexivity].
-    destruct (add_all s (id_user id) (r_new r)); reflexivity.
+  - destruct (Nat.ltb 0 (h_adds h)).
+    + destruct (Nat.eqb (List.length (r_new r)) (h_adds h) && Nat.eqb (h_owner_assignments h) (h_adds h)); [|reflexivity].
+      destruct (add_all s (id_user id) (r_new r)); reflexivity.
+    + match goal with |- context [if ?c then _ else _] => destruct c end; [|reflexivity].
+      destruct (l_objs ld); [reflexivity|]. destruct (r_upd r); reflexivity.
 Qed.
 
 Lemma denied_like_missing_l : forall P id s ph r o,
